@@ -1079,6 +1079,15 @@ def _materialise_module(spec, m, glob):
         def test_suite():
             return build_tree(m['tree'], name, layers)
         glob[spec.get('suite_name', 'test_suite')] = test_suite
+    elif style == 'empty_suite':
+        # the module switches its tests off: it has test case classes, but its test_suite() selects none of them
+        for node in _iter_cases(m['tree']):
+            cls, _ = build_case(node, name, layers)
+            glob[node['name']] = cls
+
+        def test_suite():
+            return unittest.TestSuite()
+        glob['test_suite'] = test_suite
     elif style == 'bad_suite':
         def test_suite():
             return 42   # "Invalid test_suite" start-up failure
